@@ -1,0 +1,63 @@
+//go:build verif
+
+package dig
+
+import (
+	"fmt"
+	"strings"
+)
+
+// Hooks for the verification harness in /verif (build tag "verif").
+// Add-only: exported views of unexported declarations; no behaviour is changed.
+
+// VerifTypeString renders the parsed ABI type with the query annotations
+// and the cached static/size fields: s@0 d a12<..>{S384} t(..){D0}
+func VerifTypeString(t atype) string {
+	var s strings.Builder
+	var walk func(t atype)
+	walk = func(t atype) {
+		sel := ""
+		if t.sel {
+			sel = fmt.Sprintf("@%d", t.pos)
+		}
+		flag := "D"
+		if t.static {
+			flag = "S"
+		}
+		switch t.kind {
+		case 's':
+			s.WriteString("s" + sel)
+		case 'd':
+			s.WriteString("d" + sel)
+		case 'a':
+			fmt.Fprintf(&s, "a%d<", t.length)
+			walk(*t.elem)
+			fmt.Fprintf(&s, ">{%s%d}", flag, t.size)
+		case 't':
+			s.WriteString("t(")
+			for i := range t.fields {
+				if i > 0 {
+					s.WriteString(",")
+				}
+				walk(t.fields[i])
+			}
+			fmt.Fprintf(&s, "){%s%d}", flag, t.size)
+		default:
+			fmt.Fprintf(&s, "?%d", t.kind)
+		}
+	}
+	walk(t)
+	return s.String()
+}
+
+// VerifEventType is Event.ABIType rendered by VerifTypeString.
+func VerifEventType(e Event) string { return VerifTypeString(e.ABIType()) }
+
+// VerifResult returns a fresh decoder for the event's data type.
+func VerifResult(e Event) *Result { return NewResult(e.ABIType()) }
+
+// VerifDBType exposes dbtype.
+func VerifDBType(abitype string, d []byte) any { return dbtype(abitype, d) }
+
+// VerifParseArray exposes parseArray on a static element.
+func VerifParseArray(s string) string { return VerifTypeString(parseArray(static(), s)) }
